@@ -456,6 +456,45 @@ static void op_capped(char kind, const std::string &caps, const std::string &pay
     if (!rest.empty()) tag1(o, "rest-nonempty");
 }
 
+// load(writable_buffer&) and the value after it on a TRUNCATED input: the bounded reader clamps the read and the skip
+static void op_capped_trunc(const std::string &caps, const std::string &payhex, const std::string &desc,
+                            const std::string &val, const std::string &ks, out &o)
+{
+    DT dt;
+    DV dv;
+    if (!dt_of(desc, dt) || !dv_of(dt, val, dv)) { o.result = "bad-op"; o.fail("unparsable op"); return; }
+    if (!stack_a().has(desc)) { o.result = "unsupported"; o.fail("type not in the harness family: " + desc); return; }
+    size_t cap = strtoull(caps.c_str(), 0, 10), k = strtoull(ks.c_str(), 0, 10);
+    bytes pb = unhex(payhex);
+    std::string payload(pb.begin(), pb.end());
+    bytes full;
+    ref_le(payload.size(), 2, full);
+    full.insert(full.end(), pb.begin(), pb.end());
+    ref_enc(dt, dv, full);
+    k = std::min(k, full.size());
+    cap_out co = a_capped('w', cap, payload, desc, dv, bytes(), k);
+    // reference: the missing bytes read as zero, the position never passes k
+    bytes in(full.begin(), full.begin() + k);
+    size_t pos = std::min<size_t>(2, k);
+    size_t len = (k > 0 ? in[0] : 0) | (k > 1 ? in[1] << 8 : 0);
+    size_t readsize = std::min(cap, len);
+    std::string eg(readsize, '\0');
+    size_t got = std::min(readsize, k - pos);
+    if (got) memcpy(&eg[0], in.data() + pos, got);
+    pos += got;
+    pos += std::min(len - readsize, k - pos);
+    DV rv;
+    ref_dec(dt, in.data(), in.size(), pos, true, rv);
+    std::string gs = show(dt, co.val);
+    o.result = "\"" + (co.got.empty() ? "" : hex(co.got)) + "\" " + gs + " " + std::to_string(co.consumed);
+    if (co.got != eg) o.fail("capped load on a truncated input: stored bytes are not the available bytes zero-filled");
+    if (!co.dst_clean) o.fail("capped load wrote outside the destination");
+    if (gs != show(dt, rv) || co.consumed != pos) o.fail("value after a capped load on a truncated input differs from the reference (missing bytes are zero)");
+    if (co.consumed > k) o.fail("archive reader position beyond the supplied bytes");
+    o.tag("capped-truncated");
+    if (len > cap && k < full.size()) tag1(o, "skip-clamped");
+}
+
 // binary_buffer_writer (memcpy into a caller-supplied buffer) writes what binary_string_writer writes
 static void op_binwriter(const std::string &desc, const std::string &val, out &o)
 {
@@ -632,6 +671,7 @@ static void run_op(const std::vector<std::string> &w, const std::string &, out &
         return;
     }
     if (op == "cap" && w.size() == 7) return op_capped(w[1].size() == 1 ? w[1][0] : '?', w[2], w[3], w[4], w[5], w[6], o);
+    if (op == "capt" && w.size() == 6) return op_capped_trunc(w[1], w[2], w[3], w[4], w[5], o);
     if (op == "bw" && w.size() == 3) return op_binwriter(w[1], w[2], o);
     if (op == "dat" && w.size() == 4) return op_data(w[1], w[2], w[3], o);
     if ((op == "wa" || op == "ws") && w.size() == 4) return op_wrap(op[1], w[1], w[2], w[3], o);
@@ -1158,6 +1198,19 @@ static void gen(rng &r, const std::string &tier)
                 dt_of(d, t);
                 printf("cap %c %zu %s %s %s %s\n", kind, p.second, hex(gen_bytes(r, p.first)).c_str(), d, show(t, gen_val(t, r, 3)).c_str(), gen_rest(r).c_str());
             }
+        // capped load + following value on a truncated input (the reader clamps the read AND the skip)
+        for (int i = 0; i < (th ? 1500 : 120); i++)
+        {
+            const char *d = follow[i % 6];
+            DT t;
+            dt_of(d, t);
+            size_t len = i % 5 == 0 ? r.below(300) : r.below(9), cap = r.below(3) ? r.below(len + 2) : r.below(8);
+            DV v = gen_val(t, r, 3);
+            bytes e;
+            ref_enc(t, v, e);
+            size_t total = 2 + len + e.size();
+            printf("capt %zu %s %s %s %zu\n", cap, hex(gen_bytes(r, len)).c_str(), d, show(t, v).c_str(), i % 7 == 0 ? total : r.below(total + 1));
+        }
         // binary_buffer_writer
         for (const char *d : {"u8", "i16", "u32", "i64", "f32", "f64", "str", "V(u8)", "V(str)", "V(V(u8))", "V(i32)"})
         {
